@@ -192,6 +192,28 @@ def generate(repo: Path, membrane_mod, innate_mod) -> str:
             return "none"
         return "some [" + ", ".join(f'("{n}", {v})' for n, v in t) + "]"
 
+    def responses():
+        """level -> (actions, escalate_to, rate factor x 10, enhanced logging), EVALUATED through the public API: one
+        fresh gate per level, custom patterns of severity 1..5, no built-ins, a threshold nothing reaches"""
+        rows = {}
+        cls = type("InnateProbe", (I.InnateImmunity,), {"DEFAULT_PATTERNS": []})
+        pats = [I.TLRPattern(f"zq{k}zq", I.PAMPCategory.JAILBREAK_PATTERN, "probe", False, k) for k in range(1, 6)]
+        for text in ["plain", "zq1zq", "zq2zq", "zq3zq", "zq4zq", "zq5zq", "zq1zq zq2zq", "zq3zq zq3zq zq4zq"]:
+            im = cls(patterns=list(pats), validators=[I.LengthValidator()], severity_threshold=99, silent=True)
+            r = im.check(text).inflammation
+            lvl = natval(r.level)
+            f10 = r.rate_limit_factor * 10
+            if lvl is None or f10 != int(f10):
+                raise ValueError("response")
+            row = (lvl, [str(a) for a in r.actions], [str(a) for a in r.escalate_to], int(f10), bool(r.enhanced_logging))
+            if rows.setdefault(lvl, row) != row:
+                raise ValueError("response is not a function of the level")
+        return [rows[k] for k in sorted(rows)]
+    resp = _guard(responses)
+
+    def strs(xs):
+        return "[" + ", ".join('"' + x.replace('"', "'") + '"' for x in xs) + "]"
+
     out = []
     out.append("/- GENERATED by harness/vf/extract/e5_gates.py from operon_ai/organelles/membrane.py and\n"
                "   operon_ai/surveillance/innate.py on every run of ./check C10 — do not edit.\n"
@@ -225,5 +247,11 @@ def generate(repo: Path, membrane_mod, innate_mod) -> str:
                f"def membraneBuiltins : Option (List (List Nat × Nat × Bool)) := {table(mb)}")
     out.append("/-- InnateImmunity.DEFAULT_PATTERNS as (pattern code points, severity, is_regex) -/\n"
                f"def innateBuiltins : Option (List (List Nat × Nat × Bool)) := {table(ib)}")
+    out.append("/-- inflammation level -> (actions, escalate_to, rate_limit_factor x 10, enhanced_logging), evaluated by\n"
+               "    running `check` on one crafted input per level (not parsed: an if-cascade and a lookup table give\n"
+               "    the same rows) -/\n"
+               "def inflammationResponses : Option (List (Nat × List String × List String × Nat × Bool)) := "
+               + ("none" if resp is None else "some [\n    " + ",\n    ".join(
+                   f"({l}, {strs(a)}, {strs(e)}, {f}, {'true' if g else 'false'})" for l, a, e, f, g in resp) + "]"))
     out.append("\nend Operon.Gen.Gates")
     return "\n".join(out) + "\n"
